@@ -202,7 +202,7 @@ Section Main.
     apply rec_closed; [apply good_elem; exact Ha|pose proof (size_elem a); lia|exact Hfo].
   Qed.
 
-  Lemma rows_ok r0 (rs : list (list aelem)) :
+  Lemma rows_ok (r0 : list aelem) (rs : list (list aelem)) :
     negb (Nat.eqb (length r0) 0) = true ->
     forallb (fun r => Nat.eqb (length r) (length r0)) rs = true ->
     forallb (forallb (aelem_ok nm)) rs = true ->
